@@ -485,6 +485,9 @@ class RunLengthArray(NPSIndexable, np.lib.mixins.NDArrayOperatorsMixin):
         return self.__class__(np.append(all_events, self._events[-1]), sum_values)
 
     def _get_position(self, idx):
+        idx = np.asanyarray(idx)
+        if np.issubdtype(idx.dtype, np.integer) and idx.dtype.itemsize < np.dtype(np.intp).itemsize:
+            idx = idx.astype(np.intp)  # len(self) may not fit in a narrow index dtype
         idx = np.where(idx < 0, len(self)+idx, idx)
         return self._values[np.searchsorted(self._events, idx, side="right")-1]
 
